@@ -374,7 +374,8 @@ class Ctx:
     # ---- model over cases ------------------------------------------------
     def run_driver(self, exe, casefile, mode="both", timeout=3600):
         with open(casefile, "rb") as f:
-            rc, out = self.sh([exe, mode], stdin=f, timeout=timeout)
+            # extracted code recurses over long cases: give it an unlimited stack
+            rc, out = self.sh("ulimit -s unlimited 2>/dev/null; exec '%s' %s" % (exe, mode), stdin=f, timeout=timeout)
         res = {"C": [], "M": [], "done": None, "rc": rc}
         for line in out.splitlines():
             t = line.split()
